@@ -312,7 +312,26 @@ def oracle_case(ctx, bank, spec, i, W, eps):
     try:
         b, tr = bank.get_truncated_response(i, W)
         full = bank.get_frequency_response(i, W)
-        half = bank.get_frequency_response(i, W, half=True)
+        # `half` is the third parameter of the documented signature: given by keyword or by position
+        half = bank.get_frequency_response(i, W, half=True) if (i + W) % 2 else bank.get_frequency_response(i, W, True)
+        if (i + W) % 3 == 0:
+            # what a method returns belongs to the caller: it may be overwritten (normalised in place, squared, ...) without
+            # any effect on what the bank answers next
+            keep = (np.array(tr, copy=True), np.array(full, copy=True), np.array(half, copy=True))
+            for arr in (tr, full, half):
+                arr = np.asarray(arr)
+                if arr.flags.writeable and arr.size:
+                    arr *= 0
+                    arr += 7
+            b2, tr = bank.get_truncated_response(i, W)
+            full = bank.get_frequency_response(i, W)
+            half = bank.get_frequency_response(i, W, half=True)
+            ctx.count("caller_overwrote_results")
+            if b2 != b or any(np.shape(a0) != np.shape(a1) or not np.array_equal(np.asarray(a0), np.asarray(a1))
+                              for a0, a1 in zip(keep, (tr, full, half))):
+                viol("the same answers as before", "different after the caller overwrote the arrays it had been given",
+                     "responses do not depend on what callers did with earlier results", "results_owned_by_caller")
+                tr, full, half = keep
     except Exception as e:  # noqa
         tags["exc"] = type(e).__name__
         viol("no exception", "%s: %s" % (type(e).__name__, e), "frequency-domain methods raise", "raises")
